@@ -110,6 +110,10 @@ def time_units(sc):
         return "seconds", truth.EPOCH
     if tu == "y2000":
         return "seconds", np.datetime64("2000-01-01T00:00:00", "s")
+    if tu in ("days", "days1948"):
+        # ROMS-style float days since a reference date: frame times that are not binary fractions of a day
+        # are stored with a rounding error of some nanoseconds (the reader has to round, not truncate)
+        return "days", np.datetime64("1970-01-01T00:00:00" if tu == "days" else "1948-01-01T00:00:00", "s")
     if tu == "hours":
         tref = np.datetime64("1990-01-01T00:00:00", "s")
         secs = [int((t - tref) / np.timedelta64(1, "s")) for t in truth.frame_times(sc)]
@@ -153,7 +157,7 @@ def write_forcing_file(path: Path, sc, frames: list[int], times=None, file_index
                 svars[name].add_offset = np.float32(truth.scalar_offset(name))
         unit, tref = time_units(sc)
         tv.units = f"{unit} since {str(tref).replace('T', ' ')}"
-        per = {"seconds": 1, "hours": 3600}[unit]
+        per = {"seconds": 1, "hours": 3600, "days": 86400}[unit]
         for n, f in enumerate(frames):
             if times is not None:
                 tv[n] = times[n]
@@ -230,7 +234,7 @@ def write_release_file(path: Path, sc) -> None:
                 elif extra[c]["type"] == "time":
                     items.append(_fmt_time(truth.t_start(sc) + int(val) * truth.dt_s(sc)))
                 else:
-                    items.append(repr(float(val)))
+                    items.append("nan" if val is None else repr(float(val)))
         lines.append(" ".join(items))
     path.write_text("\n".join(lines) + "\n")
 
